@@ -512,7 +512,9 @@ func runFoSchedule(t *testing.T, cfg FoCfg, bi int, b []foStepJ, seed int64) (ou
 		if cfg.StatOn {
 			s.rec(Event{Ev: "metric", C: "build", N: stat.Total(cache.MetricBuild, foName)})
 			s.rec(Event{Ev: "metric", C: "failed", N: stat.Total(cache.MetricFailed, foName)})
-			s.rec(Event{Ev: "metric", C: "refreshed", N: stat.Total(cache.MetricRefreshed, foName)})
+			if cfg.Backend != "Default" { // stale re-stores are counted from the backend wrapper's events: none for that backend
+				s.rec(Event{Ev: "metric", C: "refreshed", N: stat.Total(cache.MetricRefreshed, foName)})
+			}
 		}
 
 		if cfg.Backend != "Default" && cfg.Backend != "NoOp" { // backends that report no metrics under the name "be"
@@ -791,7 +793,9 @@ func runFoWalk(t *testing.T, cfg FoCfg, wi int, seed int64, maxFaults, maxFails,
 		if cfg.StatOn {
 			s.rec(Event{Ev: "metric", C: "build", N: stat.Total(cache.MetricBuild, foName)})
 			s.rec(Event{Ev: "metric", C: "failed", N: stat.Total(cache.MetricFailed, foName)})
-			s.rec(Event{Ev: "metric", C: "refreshed", N: stat.Total(cache.MetricRefreshed, foName)})
+			if cfg.Backend != "Default" { // stale re-stores are counted from the backend wrapper's events: none for that backend
+				s.rec(Event{Ev: "metric", C: "refreshed", N: stat.Total(cache.MetricRefreshed, foName)})
+			}
 		}
 
 		if cfg.Backend != "Default" && cfg.Backend != "NoOp" { // backends that report no metrics under the name "be"
